@@ -85,10 +85,11 @@ class SourceFile:
             i += 1
             yield i, depth
 
-    def find_scope(self, scope):
+    def find_scope(self, scope, scope_occ=None):
         """Return (start,end) index range of the inside of the scope's braces."""
         if scope in ('-', ''):
             return 0, len(self.text)
+        seen = 0
         want = norm_ws(scope)
         kw = want.split(' ')[0].split('<')[0]
         for mm in rustlex.find_code(self.text, self.mask, r'\b%s\b' % re.escape(kw)):
@@ -103,12 +104,15 @@ class SourceFile:
                 continue
             header = norm_ws(self.text[j:k])
             if header == want:
+                seen += 1
+                if scope_occ is not None and seen != scope_occ:
+                    continue
                 close = rustlex.match_close(self.text, self.mask, k)
                 return k + 1, close
         raise ExtractError('scope not found in %s: %s' % (self.rel, scope))
 
-    def find_fn(self, scope, name):
-        s, e = self.find_scope(scope)
+    def find_fn(self, scope, name, occ=None, scope_occ=None):
+        s, e = self.find_scope(scope, scope_occ)
         depth = 0
         cands = []
         rx = re.compile(r'\bfn\s+%s\b' % re.escape(name))
@@ -129,10 +133,15 @@ class SourceFile:
                 cands.append(mm.start())
         if not cands:
             raise ExtractError('fn %s not found in %s [%s]' % (name, self.rel, scope))
-        if len(cands) > 1:
-            # cfg-duplicated functions (e.g. debug/non-debug): caller must disambiguate by scope
-            raise ExtractError('fn %s ambiguous in %s [%s]' % (name, self.rel, scope))
-        fpos = cands[0]
+        if occ is not None:
+            if occ < 1 or occ > len(cands):
+                raise ExtractError('fn %s occurrence %d not found in %s [%s]' % (name, occ, self.rel, scope))
+            fpos = cands[occ - 1]
+        elif len(cands) > 1:
+            # cfg-duplicated functions (e.g. debug/non-debug): disambiguate with occ=K in the fn head
+            raise ExtractError('fn %s ambiguous in %s [%s]: add occ=K' % (name, self.rel, scope))
+        else:
+            fpos = cands[0]
         # signature start: beginning of the line holding `fn` (qualifiers are on that line)
         ls = self.text.rfind('\n', 0, fpos) + 1
         # body '{' : first '{' in code at paren depth 0 after fpos
@@ -344,7 +353,8 @@ def find_loops(lines):
 def apply_fn_block(blk, unit_state):
     relfile, scope, name, opts = split_head(blk.head)
     sf = SourceFile.get(relfile)
-    item = sf.find_fn(scope, name)
+    item = sf.find_fn(scope, name, int(opts['occ']) if 'occ' in opts else None,
+                      int(opts['scope_occ']) if 'scope_occ' in opts else None)
     rules = []
     body_src_lines = item['body'].split('\n')
     lines = [Line(t, (relfile, item['body_line'] + i), 'code') for i, t in enumerate(body_src_lines)]
